@@ -36,6 +36,9 @@ CLAIMED = {
 }
 
 CLAIMED.update({
+ "C11": ("held on N executions: no panic, abort, stack overflow (8 MiB stack), endless loop (40 CPU s watchdog), CPU-time or allocation bound overrun on the hostile inputs generated for every entry point named by the property; a clean run is 'no crash on these inputs'",
+         "trusted base: the process monitor itself (catch_unwind, counting allocator, CPU clocks, watchdog thread, driver restart) is exercised by injected abort / overflow / hang / allocation faults in ./check selftest",
+         "runtime monitoring: process-level crash / hang / allocation monitor over generated, mutated and amplified inputs (sanitizer-style: observes executions, no model)"),
  "C06": ("held on N executions: every execution of every generated fragment's script that the lazy exploration reached over the alphabet (usually exhaustively; budget overruns are counted) agreed with the library's label: consumed elements, result shape per base type, unit, signed, forced, and existence of a signature-free dissatisfaction",
          "trusted base: refvm + lazy exploration; forged labels are refuted in every run as oracle control; bounded by fragment size (<= 9 / 14 nodes)",
          "runtime monitoring: reference-model monitor (each explored input stack is a concrete VM execution checked against the static label)"),
